@@ -26,7 +26,7 @@ def main(args):
             return 1
         print("replayed case is accepted by the specification now")
         return 0
-    if kind in ("fault", "crash-image", "panic", "seglog-trace", "hang") and payload.get("script"):
+    if kind in ("fault", "crash-image", "panic", "seglog-trace", "hang", "sync-rule") and payload.get("script"):
         from . import sync, seglog
         sc = payload["script"]
         prop = payload.get("property")
@@ -48,6 +48,9 @@ def main(args):
         acc, rej = api.validate_runs(sorted(runs), runs, consts, "replaycmd")
         for r in rej:
             bad.append("record not allowed by the specification: %s" % json.dumps(r["record"])[:600])
+        if kind == "sync-rule" and events:
+            for rule, idx, rec in sync.validate_events(events, "replaycmd"):
+                bad.append("I/O ordering rule '%s' violated by %s" % (rule, json.dumps(rec)[:300]))
         if kind == "seglog-trace" and events:
             tr = seglog.build_traces(events, [sc])
             _, srej = seglog.validate(tr, [sc], "replaycmd")
